@@ -9,6 +9,7 @@ typedef struct error_context_s {
     svalue_t *save_sp;
     int save_load_depth;                 /* load_object() nesting guard */
     object_t *save_restrict_destruct;    /* destruct_object() restriction guard */
+    char *save_last_verb;                /* user_parser(): what query_verb() yields */
     struct error_context_s *save_context;
 } error_context_t;
 
